@@ -24,12 +24,16 @@ LEVEL = "exploration"
 IMPORT_FAILURE_IS_HARNESS_ERROR = False  # a tree whose canonical import fails is C20's to report
 BUDGET_S = {"quick": 120, "thorough": 1500}
 N_PERMS = {"quick": 64, "thorough": 3000}
+N_FAULTS_PER_MODULE = {"quick": 8, "thorough": 160}
 FORMS = ["importlib", "import", "from", "from_pkg"]
 ASSUMPTIONS = [
     "the module list is discovered from chartparse/*.py at run time",
     "histories of length <= 2 (<= 3 thorough) are enumerated exhaustively in the 'importlib' "
     "form; other statement forms and longer permutations are seeded samples",
     "concurrent first-imports from two threads are not part of the property and are not judged",
+    "interrupted-import histories read the statement as also covering an import attempt that was "
+    "aborted by an asynchronous exception and retried: the aborted attempt itself may fail in "
+    "any way, everything afterwards is judged like any other history",
 ]
 EXHAUSTIVE = {"quick": False, "thorough": False}
 RULE = ("each evaluation is one fresh interpreter executing one import history (then importing "
@@ -61,7 +65,7 @@ def _histories(tier: str) -> list[list[list[str]]]:
 
 
 def runs(tier: str) -> int:
-    return len(_histories(tier)) + N_PERMS[tier]
+    return len(_histories(tier)) + N_PERMS[tier] + N_FAULTS_PER_MODULE[tier] * len(modules())
 
 
 def smoke_text() -> str:
@@ -74,6 +78,20 @@ def smoke_text() -> str:
 def make_plan(seed: int, tier: str, index: int) -> dict[str, Any]:
     hs = _histories(tier)
     r = rng.stream(seed, "plan")
+    n_fault = N_FAULTS_PER_MODULE[tier] * len(modules())
+    if index >= len(hs) + N_PERMS[tier]:
+        # fault-injected history: the first import of the process is interrupted by an
+        # asynchronous exception at a seeded line of the package's module/class bodies and then
+        # retried (the interpreter drops the failed module; whatever the package's other modules
+        # captured from it survives)
+        ms = modules()
+        j = index - len(hs) - N_PERMS[tier]
+        m = ms[j % len(ms)]
+        form = r.choice(FORMS)
+        extra = [[x, r.choice(FORMS)] for x in r.sample([x for x in ms if x != m], r.choice([0, 0, 1, 2]))]
+        return {"property": PROP, "seed": seed, "imports": [[m, form]] + extra,
+                "kind": "interrupted-first-import",
+                "fault": {"step": 0, "frac": r.random()}, "hashseed": r.randint(0, 2**31 - 1)}
     if index < len(hs):
         imports = hs[index]
         kind = f"enumerated-len{len(imports)}"
@@ -87,12 +105,26 @@ def make_plan(seed: int, tier: str, index: int) -> dict[str, Any]:
             "hashseed": r.randint(0, 2**31 - 1)}
 
 
-def _probe(imports: list[list[str]], hashseed: int) -> dict[str, Any]:
+_LINES: dict[str, int] = {}
+
+
+def import_lines(module: str, form: str) -> int:
+    """How many line events of the package's own files one first import executes (calibration
+    probe with a fault that never fires)."""
+    key = f"{module}/{form}"
+    if key not in _LINES:
+        got = _probe([[module, form]], 0, fault={"step": 0, "at": 10**9})
+        _LINES[key] = int((got.get("fault") or {}).get("lines_seen") or 0)
+    return _LINES[key]
+
+
+def _probe(imports: list[list[str]], hashseed: int, fault: dict[str, Any] | None = None) -> dict[str, Any]:
     ms = modules()
     done = {m for m, _ in imports}
     rest = [m for m in ["chart"] + ms if m not in done]
     rest = list(dict.fromkeys(rest))
-    req = {"imports": imports, "rest": rest, "smoke": smoke_text()}
+    req = {"imports": imports, "rest": rest, "smoke": smoke_text(), "fault": fault,
+           "pkg_prefix": os.path.join(env.PKG_DIR, "")}
     p = subprocess.run([env.PYTHON, "-m", "detsim.importprobe"], input=json.dumps(req),
                        capture_output=True, text=True, timeout=150,
                        env=env.fresh_interpreter_env(hashseed), cwd=env.VERIF_ROOT)
@@ -112,6 +144,12 @@ def canonical() -> dict[str, Any]:
 
 def prepare(tier: str, seed: int) -> None:
     canonical()
+    # calibrate the fault space once, in the launcher (the workers inherit the table)
+    from concurrent.futures import ThreadPoolExecutor
+
+    pairs = [(m, f) for m in modules() for f in FORMS]
+    with ThreadPoolExecutor(max_workers=16) as ex:
+        list(ex.map(lambda mf: import_lines(*mf), pairs))
 
 
 def execute(plan: dict[str, Any]) -> dict[str, Any]:
@@ -123,8 +161,21 @@ def execute(plan: dict[str, Any]) -> dict[str, Any]:
                            "detail": f"the canonical order (chartparse.chart first) fails: {f}"})
         got: dict[str, Any] = canon
     else:
-        got = _probe(plan["imports"], plan["hashseed"])
+        fault = None
+        if plan.get("fault"):
+            m0, f0 = plan["imports"][0]
+            n = import_lines(m0, f0)
+            if n <= 0:
+                return {"violations": [], "digest": "no-lines", "evals": 1, "nontrivial": [],
+                        "sub_batch": plan["kind"], "discarded": {"no-package-lines-in-import": 1}}
+            fault = {"step": 0, "at": 1 + int(plan["fault"]["frac"] * n) % n}
+        got = _probe(plan["imports"], plan["hashseed"], fault=fault)
         hist = " -> ".join(f"{m}[{f}]" for m, f in plan["imports"])
+        if fault is not None:
+            fr = got.get("fault") or {}
+            hist = (f"{plan['imports'][0][0]}[{plan['imports'][0][1]}] INTERRUPTED at package line "
+                    f"event {fault['at']} ({fr.get('where')}), retried" +
+                    "".join(f" -> {m}[{f}]" for m, f in plan["imports"][1:]))
         if not got.get("ok"):
             f = got["failed"]
             violations.append({
@@ -159,7 +210,8 @@ def execute(plan: dict[str, Any]) -> dict[str, Any]:
     first = plan["imports"][0][0]
     dig = rng.digest({"ok": got.get("ok"), "failed": got.get("failed"),
                       "names": rng.digest(got.get("names")), "identity": rng.digest(got.get("identity")),
-                      "smoke": got.get("smoke"), "misbound": got.get("misbound"), "v": [v["sig"] for v in violations]})
+                      "smoke": got.get("smoke"), "misbound": got.get("misbound"),
+                      "fault": [(got.get("fault") or {}).get(k) for k in ("fired", "where", "outcome")], "v": [v["sig"] for v in violations]})
     n_bind = sum(len(v) for v in (got.get("names") or {}).values())
     return {
         "violations": violations,
@@ -169,6 +221,8 @@ def execute(plan: dict[str, Any]) -> dict[str, Any]:
         "counters": {"interpreters": 1, "public_bindings_compared": n_bind,
                      f"first_{first}": 1, f"len_{min(len(plan['imports']), 4)}{'+' if len(plan['imports']) > 4 else ''}": 1},
         "sub_batch": plan["kind"],
+        "faults_fired": ({"import_interrupted": 1} if (got.get("fault") or {}).get("fired") else {}),
+        "faults_configured": ({"import_interrupted": 1} if plan.get("fault") else {}),
         "ops": len(plan["imports"]),
         "sample": {"imports": plan["imports"], "hashseed": plan["hashseed"]},
     }
